@@ -1,4 +1,5 @@
 import Bmc.Proofs.C15
+import Bmc.Proofs.C15Float
 #print axioms Bmc.Proofs.C15.convert_exact
 #print axioms Bmc.Proofs.C15.printed_value
 #print axioms Bmc.Proofs.C15.printed_canonical
@@ -11,3 +12,12 @@ import Bmc.Proofs.C15
 #print axioms Bmc.Proofs.C15.flags_iff
 #print axioms Bmc.Proofs.C15.read_error
 #print axioms Bmc.Proofs.C15.sensor_reading_spec
+#print axioms Bmc.Proofs.C15.convertReading_source
+#print axioms Bmc.Proofs.C15.ab_pow10
+#print axioms Bmc.Proofs.C15.convert_error
+#print axioms Bmc.Proofs.C15.five_roundings
+#print axioms Bmc.Proofs.C15.convert_within_6u
+#print axioms Bmc.Proofs.C15.convert_binary64_within_6u
+#print axioms Bmc.Proofs.C15.binary64_is_rounding_to_53_bits
+#print axioms Bmc.Proofs.C15.driver_prints_convertFloat
+#print axioms Bmc.Proofs.C15.convert_exact_rounding
